@@ -1,12 +1,13 @@
 (* C04 — rescue regrouping keeps a partition and merges only along shared peptides.
    Statements only.  The minimum-cut search of networkx is the oracle [split]; the theorems hold for EVERY
    oracle satisfying [split_ok] (parts are duplicate-free subsets of the component's protein nodes), which
-   the harness checks on each recorded call.  PARTIAL: the clauses "merged iff inseparable" and "only within a
-   connected component" are not proved here (they are decided by the correspondence check and the brute-force
-   monitor on the implementation's output); [rescue_partition] carries the hypothesis that the initial
-   components consist of leading proteins of distinct groups. *)
+   the harness checks on each recorded call.  "Only within a connected component" is C04_merges_only_connected.
+   PARTIAL: the clause "merged iff inseparable" speaks about the minimum-cut search itself (the oracle) and is
+   decided by the correspondence check and the brute-force monitor on the implementation's output;
+   [rescue_partition] carries the hypothesis that the initial components consist of leading proteins of
+   distinct groups. *)
 From PGF Require Import Base.Prelude Base.PyStr Model.Fdr Model.Results Model.ProteinGroups Model.Grouping
-  Model.Scoring Model.Competition Model.Rescue Model.Pipeline Proofs.RescueProofs Proofs.PipelineOptions.
+  Model.Scoring Model.Competition Model.Rescue Model.Pipeline Proofs.RescueProofs Proofs.RescueConnect Proofs.PipelineOptions.
 From Coq Require Import Permutation.
 
 (* the result is again a partition of exactly the first-pass proteins, without empty groups *)
@@ -76,6 +77,24 @@ Theorem C04_no_unidentified_same_as_subset : forall split l,
   exists s, rescued_groups split l = Ok s /\ groups s = subset_grouping (pmap_of l).
 Proof. exact no_unidentified_same_as_subset. Qed.
 Print Assumptions C04_no_unidentified_same_as_subset.
+
+(* never across unconnected groups: after the rescue regrouping two proteins share a group only if their first-pass groups (slots
+   of the first-pass grouping) are the same or are linked by a chain of groups without a peptide of their own whose leading proteins
+   share a peptide node of the graph - for EVERY splitter oracle that answers with sub-lists of the component it was given *)
+Theorem C04_merges_only_connected : forall l, NoDup (map fst (pmap_of l)) -> forall split s',
+  split_ok split -> rescued_groups split l = Ok s' ->
+  forall g x y, In g (groups s') -> In x g -> In y g ->
+  exists i j, lookup (index (generate_protein_groups (pmap_of l))) x = Some i /\
+              lookup (index (generate_protein_groups (pmap_of l))) y = Some j /\ slot_linked l i j.
+Proof. exact rescue_merges_only_connected. Qed.
+Print Assumptions C04_merges_only_connected.
+
+(* non-vacuity: in the witness below A (slot 0) and B (slot 1) are linked by their shared peptide e1 *)
+Example C04_connected_witness :
+  let l := [(s2l "e1", ((1#1000)%Q, [s2l "A"; s2l "B"])); (s2l "e2", ((1#1000)%Q, [s2l "B"; s2l "C"]));
+            (s2l "e3", ((1#1000)%Q, [s2l "A"; s2l "C"]))] in
+  slot_linked l 0 1.
+Proof. apply Relation_Operators.rst_step. exists (s2l "A"), (s2l "B"). repeat split; vm_compute; reflexivity. Qed.
 
 (* the rescue cutoff is the PEP equivalent (10^-m) of the LOWEST score m among the first-pass rows accepted at the protein-group
    FDR threshold (q < threshold) - among all rows when none is accepted; rows = (score, q-value) *)
